@@ -16,7 +16,7 @@ package handler
 //@ ghost var hlog_stop Array[int]bool
 
 //@ type Handler4
-//@   requires valid4(req) && valid4(resp) && req != resp
+//@   requires valid4(req) && valid4(resp) && req != resp && req.Options != resp.Options
 //@   modifies everything
 //@   ensures[C13,callsite:logged] hlog_n == old(hlog_n) + 1 && hlog_fn == upd(old(hlog_fn), old(hlog_n), self) && \
 //@       hlog_req4 == upd(old(hlog_req4), old(hlog_n), req) && hlog_in4 == upd(old(hlog_in4), old(hlog_n), resp) && \
@@ -29,7 +29,7 @@ package handler
 //@   ensures[C11:request-options-untouched] forall k uint8: (has(req.Options, k) <==> old(has(req.Options, k))) && req.Options[k] == old(req.Options[k])
 //@   ensures[C11:reply-header-untouched] ret0 != nil ==> (ret0.OpCode == old(resp.OpCode) && ret0.TransactionID == old(resp.TransactionID) && \
 //@       ret0.HWType == old(resp.HWType) && ret0.ClientHWAddr == old(resp.ClientHWAddr) && ret0.Flags == old(resp.Flags) && \
-//@       ret0.GatewayIPAddr == old(resp.GatewayIPAddr))
+//@       ret0.GatewayIPAddr == old(resp.GatewayIPAddr) && ret0.Options == old(resp.Options))
 //@   ensures[C11:echoed-options-untouched] ret0 != nil ==> ((has(ret0.Options, 82) <==> old(has(resp.Options, 82))) && ret0.Options[82] == old(resp.Options[82]) && \
 //@       (has(ret0.Options, 61) <==> old(has(resp.Options, 61))) && ret0.Options[61] == old(resp.Options[61]))
 //@   ensures[C11:reply-type-untouched] ret0 != nil ==> mtof(ret0.Options) == old(mtof(resp.Options))
